@@ -38,17 +38,24 @@ def run(ctx):
     if os.environ.get("VERIF_DEV_SKIP_MC") != "1":      # development knob (mutation runs): MC does not depend on the Go code
         if ctx.thorough:
             ctx.model_check("state/MCPathDB", "state/MCPathDB", timeout=3 * T, workers=6, name="MCPathDB")
-            ctx.model_check("state/MCPathDB", "state/MCPathDBThorough3", timeout=3 * T, workers=6, name="MCPathDB-3keys")
+            ctx.model_check("state/MCPathDB", "state/MCPathDBThorough2", timeout=3 * T, workers=6, name="MCPathDB-3values")
         else:
             ctx.model_check("state/MCPathDB", "state/MCPathDBQuickSync", timeout=T, workers=4, name="MCPathDB-noreader")
             ctx.model_check("state/MCPathDB", "state/MCPathDBQuick", timeout=2 * T, workers=4, name="MCPathDB-reader")
     # R: behaviours with reader and flush schedules
-    bs = behaviours(ctx, "state/MCPathDBSim", ctx.pick(40, 500), 16, "MBT-PathDB")
-    bs += behaviours(ctx, "state/MCPathDBSimRd", ctx.pick(40, 500), 14, "MBT-PathDB-readers")
+    bs = behaviours(ctx, "state/MCPathDBSim", ctx.pick(25, 500), 16, "MBT-PathDB")
+    bs += behaviours(ctx, "state/MCPathDBSimRd", ctx.pick(25, 500), 14, "MBT-PathDB-readers")
     bp = os.path.join(ctx.scratch, "behaviours.json")
     write_json(bp, bs)
     ctx.drive(drv, ["-mode", "replay", "-in", bp], name="c16-replay", timeout=T)
+    # V: natural runs (the database caps by itself, buffers fill by byte size) validated by PathDBTrace.tla
+    tp = os.path.join(ctx.scratch, "natural.ndjson")
+    sr, _ = ctx.drive(drv, ["-mode", "record", "-trace", tp, "-n", ctx.pick(5, 25), "-steps", ctx.pick(20, 60)], name="c16-record", timeout=T)
+    ok, consumed, total, r = ctx.validate("state/PathDBTrace", tp, cfg="state/PathDBTrace", ntraces=sr["traces"], timeout=T,
+                                          silent_steps=True, name="PathDBTrace")
+    if not ok:
+        ctx.reject_trace("state/PathDBTrace", tp, consumed, r, cfg="PathDBTrace")
     # regression scenario of the fixed defect C16-F1: fork exactly at the cap depth, default limits, Update only
     ctx.drive(drv, ["-mode", "regress"], name="c16-fork-at-cap-depth", timeout=T)
-    return ctx.finish(rule="MC: all interleavings with <= MaxObjs diff layers ever created, 2 keys, 1 reader; R: sampled behaviours (3 keys, values 0..2, <= 6 layers, depth 16) on the real database",
+    return ctx.finish(rule="MC: all interleavings with <= MaxObjs diff layers ever created, 2 keys, 1 reader; R: sampled behaviours (3 keys, values 0..2, <= 6 layers, depth 16) on the real database; V: natural self-capping runs (5 keys, maxDiffLayers 1..128) validated by PathDBTrace",
                       assumptions=["cap is one call on the real database (reads inside a cap are model-only)"])
